@@ -150,7 +150,7 @@ P = {
     "required_classes": REQUIRED,
     "signature": c19_sig,
     "corrupt": c19_corrupt,
-    "level_text": "Maven resolution is specified twice in spec/maven/Maven.tla: operationally as the code is built (parent-chain merge, management = own entries, imports in place, parent's; dependencies filled from management; recursive expansion with the scope match and the optional cut; breadth-first retain with a first-seen set as explicit queue steps; breadth-first flatten; repository loop) and declaratively from the documented rules (lookup of the managed entry along lineage and imports, the documented 4x4 scope table, Kept(n) <=> ancestors kept and no kept rival precedes n in (depth, declaration path) order, first repository in list order). TLC checks over the bounded families of MC_Maven (all dependency graphs over 8 POMs with two conflicted artifacts up to an edge bound; root scope x two edges with declared/managed/omitted scope, optional, managed version; a managed entry at each of own / 2 BOMs / parent / parent's BOM / grandparent x declaring level; key variants; every POM in first/second/both/no repository) that both coincide and that the result has no two entries of one artifact, is closed under kept ancestors, carries the closed-form scope, and is in breadth-first order. Every explored case is replayed through get_maven_dependencies on POM XML served by an in-memory Downloader and compared with the specification's result; seeded random larger universes (up to 12 artifacts x 2 versions, 2 chained parents, 2 BOMs, 3 repositories, depth 5) resolved by the real code are re-judged by TLC (trace validation), as are Display/parse round trips of MavenCoord, DependencyScope and FoundDependency.",
+    "level_text": "Maven resolution is specified twice in spec/maven/Maven.tla: operationally as the code is built (parent-chain merge, management = own entries, imports in place, parent's; dependencies filled from management; recursive expansion with the scope match and the optional cut; breadth-first retain with a first-seen set as explicit queue steps; breadth-first flatten; repository loop) and declaratively from the documented rules (lookup of the managed entry along lineage and imports, the documented 4x4 scope table, Kept(n) <=> ancestors kept and no kept rival precedes n in (depth, declaration path) order, first repository in list order). TLC checks over the bounded families of MC_Maven (all dependency graphs over 8 POMs with two conflicted artifacts up to an edge bound; root scope x two edges with declared/managed/omitted scope, optional, managed version; a managed entry at each of own / 2 BOMs / parent / parent's BOM / grandparent x declaring level; key variants; every POM in first/second/both/no repository) that both coincide and that the result has no two entries of one artifact, is closed under kept ancestors, carries the closed-form scope, and is in breadth-first order. Every explored case is replayed through get_maven_dependencies on POM XML served by an in-memory Downloader and compared with the specification's result; seeded random larger universes (up to 12 artifacts x 2 versions, 2 chained parents, 2 BOMs, 3 repositories, depth 5) resolved by the real code are re-judged by TLC (trace validation), as are Display/parse round trips of MavenCoord, DependencyScope and FoundDependency. Family MD: an artifact met first (depth first) below an occurrence that loses mediation and again, not nearer, below the winner - the second occurrence is the result and keeps everything below it.",
     "level_note": "Trusted: TLC; the harness rendering of abstract POMs to XML (serde_xml_rs, as the crate's tests), the Maven repository layout URL, a poll-loop executor, the projection of FoundDependency. Not judged (the property and the cited documentation are silent; both answers accepted): whether a POM missing only below a mediation loser is an error; whether a parent's declared management ranks above the child's BOM imports (Maven's model builder) or below (the code). Not modelled: real Maven's scope widening across occurrences, conflict ids by extension rather than type (test-jar/ejb), managed `optional`, system scope, anything outside the supported subset (interpolation, ranges, exclusions, profiles, management after imports, re-declared inherited dependencies, cycles). Known finding C19-inherited-dependency-management: see spec/maven/FINDINGS.md.",
     "assumptions": ["TLC/SANY/CommunityModules", "harness: abstract POM -> XML -> serde_xml_rs -> MavenPom; Maven repository layout URL",
                     "bounded universe: families M,MX,S,S2,G,GB,GC,GK,K,R,T of spec/maven/MC_Maven.tla",
